@@ -31,14 +31,14 @@ From PLV Require Import Base.PyStr Tok.PState Tok.Tokenizer Parse.Nodes Parse.Pa
 Import ListNotations.
 
 (** * Abstract documents *)
-Inductive mathkind := MDollar | MParen | MBracket.
+Inductive mathkind := MDollar | MParen | MBracket | MDollars.
 
 Definition m_open (k : mathkind) : str :=
-  match k with MDollar => [36%N] | MParen => [92;40]%N | MBracket => [92;91]%N end.
+  match k with MDollar => [36%N] | MParen => [92;40]%N | MBracket => [92;91]%N | MDollars => [36;36]%N end.
 Definition m_close (k : mathkind) : str :=
-  match k with MDollar => [36%N] | MParen => [92;41]%N | MBracket => [92;93]%N end.
+  match k with MDollar => [36%N] | MParen => [92;41]%N | MBracket => [92;93]%N | MDollars => [36;36]%N end.
 Definition m_display (k : mathkind) : bool :=
-  match k with MBracket => true | _ => false end.
+  match k with MBracket | MDollars => true | _ => false end.
 
 Inductive item :=
 | Text (ws cs : str)                                  (* whitespace, then a run of inert characters *)
